@@ -362,6 +362,8 @@ def gen_C04(rng, tier):
         n = len(xs)
         for k in set([0, 1, n // 2, max(0, n - 1), n, n + 1]):
             L.append('it 1 iter %d %s' % (k, ','.join(['n'] * min(n - min(k, n) + 2, 70))))
+            # the same walk by hops (`nth`, which `skip` and `step_by` are built on)
+            L.append('it 1 iter %d %s' % (k, ','.join(rng.choice(['n', 't0', 't1', 't2', 't5', 't%d' % rng.randrange(0, n + 2)]) for _ in range(min(n - min(k, n) + 2, 12)))))
         L.append('q 1 ser'); L.append('q 1 size_in_bytes')
         cases.append(L)
     # large sequences whose high-bit vector has a sparse 1024-block followed by dense ones (ones: select; zeros: rank)
@@ -995,9 +997,11 @@ def gen_C17(rng, tier):
     def ops(n):
         k = min(n + 3, 60); o = []
         for _ in range(k):
-            o.append('n')
+            # `t<j>` = nth(j) (what skip / step_by call): mostly short hops, now and then to / past the end or by usize::MAX
+            if rng.random() < 0.2: o.append('t%d' % (rng.choice([0, 1, 2, 3, 7]) if rng.random() < 0.85 else rng.choice([n, n + 1, MAXU, MAXU - 1, 2**63])))
+            else: o.append('n')
             if rng.random() < 0.4: o.append('h')
-        o += ['n', 'h', 'n', 'h']
+        o += ['n', 'h', 't%d' % rng.choice([0, 1, MAXU]), 'h', 'n', 'h']
         return ','.join(o)
     for ci in range(40 if tier == 'quick' else 250):
         L = ['case C17-idx-%d' % ci]
